@@ -27,6 +27,20 @@ def spliced(src, ln, col, eln, ecol, new):
     return '\n'.join(lines[:ln] + [lines[ln][:col] + new + lines[eln][ecol:]] + lines[eln + 1:])
 
 
+KEYWORDS = ['if', 'while', 'for', 'with', 'elif', 'else', 'try', 'def', 'class', 'async def', 'async for', 'except', 'finally', 'match', 'case']
+
+
+def keyword_swap(rng, root, lines):
+    """rectangle = the leading keyword of a block statement header (or of an elif/else/except/finally clause)"""
+    import re
+    cands = []
+    for i, l in enumerate(lines):
+        m = re.match(r'\s*(async\s+def|async\s+for|async\s+with|if|while|for|with|elif|else|try|def|class|except\*?|finally|match|case)\b', l)
+        if m:
+            cands.append((i, m.start(1), i, m.end(1)))
+    return rng.choice(cands) if cands else None
+
+
 def rand_rect(rng, root, lines):
     r = rng.random()
     locs = [f.loc for f in root.walk(True) if f.loc is not None and f.parent is not None]
@@ -87,6 +101,9 @@ def stage_oracle(ctx: Ctx, progs):
                 if how in ('put_src', 'put_src_node'):
                     ln, col, eln, ecol = rand_rect(rng, root, lines)
                     new = rand_new(rng, src, lines)
+                    if rng.random() < 0.12 and (kwr := keyword_swap(rng, root, lines)):
+                        ln, col, eln, ecol = kwr
+                        new = rng.choice(KEYWORDS)
                     want_src = spliced(src, ln, col, eln, ecol, new)
                     rec.update(rect=[ln, col, eln, ecol], new=new)
                     node = root
@@ -150,6 +167,57 @@ def stage_oracle(ctx: Ctx, progs):
     return
 
 
+def stage_keywords(ctx: Ctx, progs):
+    """systematic single-step sweep: every block / clause keyword of a program replaced by each of a few other keywords"""
+    import fst
+    import re
+    rng = ctx.rng
+    repls = ['if', 'while', 'for q in', 'with', 'elif', 'else', 'try', 'def', 'class', 'except', 'finally']
+    extra = ['if x:\n  pass\nelif y:\n  pass\n', 'while a:\n    b\nelse:\n    c\n', 'for i in j:\n    k\nelse:\n    l\n', 'try:\n    a\nexcept E:\n    b\nelse:\n    c\nfinally:\n    d\n',
+             'def f():\n    if a:\n        b\n    elif c:\n        d\n    else:\n        e\n', 'with a as b:\n    c\nif d: e\nelif f: g\n']
+    pool = extra + rng.sample(progs, min(len(progs), ctx.scale(12, 80)))
+    for src in pool:
+        lines = src.split('\n')
+        spots = []
+        for i, l in enumerate(lines):
+            m = re.match(r'\s*(async\s+def|async\s+for|async\s+with|if|while|for\b.*?\bin|with|elif|else|try|def|class|except\*?|finally)\b', l)
+            if m:
+                spots.append((i, m.start(1), m.end(1)))
+        if len(spots) > 14:
+            spots = rng.sample(spots, 14)
+        for (ln, c0, c1) in spots:
+            for new in repls:
+                root = fst.FST(src, 'exec')
+                before_dump = ast.dump(root.a, include_attributes=True)
+                want_src = spliced(src, ln, c0, ln, c1, new)
+                rec = {'start_src': src, 'rect': [ln, c0, ln, c1], 'new': new, 'how': 'keyword-swap'}
+                try:
+                    root.put_src(new, ln, c0, ln, c1, 'reparse')
+                    err = None
+                except Exception as e:
+                    err = e
+                ctx.tick((hash(src) & 0xffffff, 'kw', ln, c0, new), 'raw:keyword:' + ('ok' if err is None else 'raise'))
+                try:
+                    ref = ast.parse(want_src)
+                except (SyntaxError, ValueError):
+                    ref = None
+                if err is not None:
+                    if root.src != src or ast.dump(root.a, include_attributes=True) != before_dump:
+                        ctx.violation(f'failed-but-changed|keyword|{type(err).__name__}', 'a raw edit raised and left source or tree changed', {**rec, 'error': repr(err), 'after_src': root.src})
+                    elif ref is not None and not isinstance(err, NotImplementedError):
+                        ctx.violation(f'valid-refused|keyword|{type(err).__name__}', 'the spliced whole source is valid but the raw edit was refused', {**rec, 'error': repr(err), 'want_src': want_src})
+                    continue
+                if root.src != want_src:
+                    ctx.violation('source-not-splice|keyword', 'the source after the raw edit is not the requested splice', {**rec, 'after_src': root.src, 'want_src': want_src})
+                elif ref is None:
+                    ctx.violation('accepted-invalid|keyword', 'the raw edit succeeded although the new whole source does not parse', {**rec, 'after_src': root.src})
+                else:
+                    d = cmp_ast(root.a, ref, positions=True)
+                    if d:
+                        ctx.violation(f'tree-differs|keyword|{d[0].split(":")[-1].strip()[:40]}', 'the tree after the raw edit differs from a from-scratch parse of the new source',
+                                      {**rec, 'after_src': root.src, 'diffs': d})
+
+
 def run(ctx: Ctx):
     ctx.rule = ('random sequences (1..5 quick / 1..14 thorough steps) on corpus + generated programs of: put_src(new, rect, "reparse") on the root or a random node with rectangles '
                 'on node boundaries, off them, spanning statements/blocks, or random; node.replace(text, raw=True); reparse(). new text: fixed hostile list (valid, invalid, '
@@ -163,6 +231,7 @@ def run(ctx: Ctx):
     progs = corpus(ctx.rng, gen=ctx.scale(25, 200))
     progs = [p for p in progs if len(p) < 1500]
     run_guarded(ctx, stage_oracle, progs)
+    run_guarded(ctx, stage_keywords, progs)
 
 
 def replay(path):
